@@ -25,7 +25,7 @@ import datetime as _dt
 from .. import rx
 from ..core import AnalysisError
 from ..index import get_index
-from .c06 import (CULTURES, DT, PyPattern, Taint, Val, Wiring, _bind, _callee_name, _is_name, _param_names,
+from .c06 import (CULTURES, DT, PyPattern, Taint, Wiring, _bind, _callee_name, _is_name, _param_names,
                   class_consts)
 
 LEVEL = 'other'
@@ -522,19 +522,17 @@ def unit_delta_table(fn, consts):
     return table, probs, facts
 
 
-def swift_polarity(idx, fn):
-    """value of the `swift` factor for is_future True / False (the local multiplied into every delta)"""
+def swift_polarity(idx, fn, consts=None):
+    """environment after the statements that precede the unit chain, for is_future True / False"""
     out = {}
+    pre = []
+    for st in fn.body:
+        if isinstance(st, ast.If) and _eq_letters(st.test, 'unit_str', consts or {}) is not None:
+            break
+        pre.append(st)
     for fut in (True, False):
         ev = MiniEval(idx)
-        env = {'is_future': fut}
-        # interpret the statements before the unit chain only
-        pre = []
-        for st in fn.body:
-            if isinstance(st, ast.If):
-                break
-            pre.append(st)
-        env.update({'unit_str': 'D', 'num': 1, 'reference': _dt.datetime(2016, 11, 7), 'mode': None})
+        env = {'is_future': fut, 'unit_str': 'D', 'num': 1, 'reference': _dt.datetime(2016, 11, 7), 'mode': None}
         for st in pre:
             try:
                 ev.block([st], env)
@@ -1058,7 +1056,7 @@ def run(chk):
     chk.rule('C08.weekday', 'DateUtils.this/next/last give the weekday of the same ISO week / +7 / -7 days', floor=3, control=True)
     chk.rule('C08.implicit', 'parse_implicit_date wires next/last/this regexes and special days correctly', floor=8, control=True)
     chk.rule('C08.period', 'one-word periods shift by 7*swift days / swift months / swift years', floor=4, control=True)
-    chk.rule('C08.wiring', 'next/last/this (and ago/later) slots are wired to regexes of that kind in every culture', floor=40)
+    chk.rule('C08.wiring', 'next/last/this (and ago/later) slots are wired to regexes of that kind in every culture', floor=50)
     chk.rule('C08.specialday', 'today/tomorrow/yesterday lexicon evaluates to 0/+1/-1 (+-2) through get_swift_day', floor=30, control=True)
     chk.rule('C08.relperiod', 'this/next/last week|month|year phrases evaluate to the right unit predicate and swift in every culture',
              floor=60, control=True)
@@ -1123,13 +1121,13 @@ def run(chk):
                 'the deltas are not all multiplied by one and the same sign factor: %s' % sorted(swiftvars), gdr.lineno)
     else:
         sv = next(iter(swiftvars))
-        pol = swift_polarity(idx, gdr)
+        pol = swift_polarity(idx, gdr, consts)
         for fut, want in ((True, 1), (False, -1)):
             got = pol[fut].get(sv)
             chk.judge(got == want, 'C08.polarity', upath, 'AgoLaterUtil.get_date_result#swift[is_future=%s]' % fut,
                       '%s = %r' % (sv, got), 'with is_future=%s the sign factor `%s` is %r, expected %d' % (fut, sv, got, want), gdr.lineno)
     ctl = ast.parse("def f(unit_str, num, reference, is_future, mode):\n    swift = -1 if is_future else 1\n    if unit_str == 'D':\n        pass\n").body[0]
-    chk.control('C08.polarity', swift_polarity(idx, ctl)[True].get('swift') != 1)
+    chk.control('C08.polarity', swift_polarity(idx, ctl, consts)[True].get('swift') != 1)
 
     # ---- C08.agolater
     br = agolater_branches(galr, _param_names(gdr), tconsts)
@@ -1241,6 +1239,11 @@ def run(chk):
     for cul in CULTURES:
         if cul not in dp_cfgs or cul not in pp_cfgs:
             raise AnalysisError('no date / date-period parser configuration for culture %s' % cul)
+    util_cfgs = {}
+    for q in ('base_date.DateTimeUtilityConfiguration', 'utilities.DateTimeUtilityConfiguration'):
+        util_cfgs.update(W.culture_classes(DT + q))
+    if len(util_cfgs) < 7:
+        raise AnalysisError('only %d culture utility configurations (ago/later regexes) found' % len(util_cfgs))
     slot_kind = {'next_regex': 'next', 'last_regex': 'past', 'this_regex': 'this'}
     names_by_slot = {}
     for cul in CULTURES:
@@ -1272,11 +1275,7 @@ def run(chk):
                           '%s.%s is wired to %s, which accepts the culture\'s %s word(s), expected %s'
                           % (pcfg.name, attr, v.label, '/'.join(sorted(ks)), kind))
         # utility configuration (ago / later)
-        try:
-            ucs = W.culture_classes(DT + 'utilities.DateTimeUtilityConfiguration')
-        except AnalysisError:
-            ucs = {}
-        uc = ucs.get(cul)
+        uc = util_cfgs.get(cul)
         if uc is not None:
             for attr, key in (('ago_regex', 'Ago'), ('later_regex', 'Later')):
                 vals = W.patterns(uc, attr)
@@ -1484,3 +1483,78 @@ def run(chk):
             ok = nf is not None and nf[1] == 'days' and nf[2] == want_k and len(nf[3]) == 1
             chk.judge(ok, 'C08.unit_delta', cdp.mod.path, cons, text if nf is None else 'days = %d * %s' % (nf[2], '*'.join(nf[3])),
                       '%s: %s; expected reference + timedelta(days=%d*N)' % (cons, text, want_k), ln)
+
+
+def thorough(chk):
+    """deeper bounded enumeration: interpret get_date_result for every unit, N in a spread of values and both
+    polarities over reference dates that include month ends, a leap day and a year boundary"""
+    idx = get_index()
+    consts = class_consts(idx, DT + 'constants.Constants')
+    al = idx.cls(DT + 'utilities.AgoLaterUtil')
+    gdr = al.methods['get_date_result']
+    chk.rule('C08.unit_delta.sem', 'get_date_result interpreted: value = reference +/- N units (calendar arithmetic)', floor=7)
+
+    def res(node):
+        if isinstance(node, ast.Attribute) and isinstance(node.value, ast.Name) and node.value.id == 'Constants' and node.attr in consts:
+            return consts[node.attr]
+        raise Undetermined('attribute %s' % ast.unparse(node))
+
+    # stop before the result object is filled: interpret only up to the end of the unit chain
+    body = []
+    for st in gdr.body:
+        body.append(st)
+        if isinstance(st, ast.If) and _eq_letters(st.test, 'unit_str', consts) is not None:
+            break
+    refs = [_dt.datetime(2016, 1, 31, 10, 30), _dt.datetime(2016, 2, 29, 23, 59, 59), _dt.datetime(2015, 12, 31, 0, 0),
+            _dt.datetime(2016, 11, 7, 12, 0), _dt.datetime(2017, 3, 31, 6, 0)]
+    ns = [1, 2, 5, 12, 13, 30, 365, 5000]
+
+    def want(ref, L, n):
+        if L == 'D':
+            return ref + _dt.timedelta(days=n)
+        if L == 'W':
+            return ref + _dt.timedelta(days=7 * n)
+        if L == 'H':
+            return ref + _dt.timedelta(hours=n)
+        if L == 'M':
+            return ref + _dt.timedelta(minutes=n)
+        if L == 'S':
+            return ref + _dt.timedelta(seconds=n)
+        if L == 'MON':
+            return ref + DateDelta(months=n)
+        return ref + DateDelta(years=n)
+
+    for L in REF_DELTA:
+        bad = None
+        cnt = 0
+        for ref in refs:
+            for n in ns:
+                for fut in (True, False):
+                    if L in ('MON', 'Y') and not (1 <= ref.year + (n if L == 'Y' else n // 12 + 1) * (1 if fut else -1) <= 9998):
+                        continue
+                    ev = MiniEval(idx, al, res)
+                    env = {'unit_str': L, 'num': n, 'reference': ref, 'is_future': fut, 'mode': None,
+                           'DateTimeResolutionResult': None}
+                    try:
+                        stmts = [s for s in body if not (isinstance(s, ast.Assign) and isinstance(s.value, ast.Call)
+                                                          and _callee_name(s.value) == 'DateTimeResolutionResult')]
+                        try:
+                            ev.block(stmts, env)
+                        except _Return:
+                            pass
+                    except Undetermined as e:
+                        raise AnalysisError('get_date_result cannot be interpreted: %s' % e)
+                    except OverflowError:
+                        continue
+                    try:
+                        w = want(ref, L, n if fut else -n)
+                    except (OverflowError, ValueError):
+                        continue
+                    cnt += 1
+                    vals = [v for k, v in env.items() if isinstance(v, _dt.datetime) and k != 'reference']
+                    if w not in vals and bad is None:
+                        bad = (ref, n, fut, vals, w)
+        chk.judge(bad is None, 'C08.unit_delta.sem', al.mod.path, 'AgoLaterUtil.get_date_result[%r]#interpreted' % L,
+                  '%d interpreted cases' % cnt,
+                  'unit %r: reference %s, N=%s, is_future=%s gives %s, calendar arithmetic gives %s' % ((L,) + (bad or (0, 0, 0, 0, 0))),
+                  gdr.lineno)
